@@ -894,3 +894,140 @@ Proof.
   - cbn [cstep]. unfold fdata_step. rewrite Hf, Hc, Hd, dtype_eqb_refl. reflexivity.
   - cbn [cstep]. rewrite Hc. cbn. now rewrite orb_true_r.
 Qed.
+
+(* ------------------------------------------------------------------ the documented rules, one by one *)
+(* images_and_memory.rst: "in_memory is always True for array images"; "for a proxy image ... False when the
+   array is not in cache, and True when it is in cache" *)
+Lemma in_memory_rule :
+  (forall st o, c_dobj st = DArr o -> cstep st InMemory = (st, OBool true)) /\
+  (forall st p, c_dobj st = DProxy p ->
+     cstep st InMemory = (st, OBool (is_some (c_fcache st) || is_some (c_dcache st)))).
+Proof. split; intros st x E; cbn [cstep]; rewrite E; reflexivity. Qed.
+
+(* "caching='unchanged' will leave the cache full if it is already full" - and empty if it is empty: it never
+   touches either cache, whatever it returns *)
+Lemma unchanged_leaves_cache st b dt :
+  c_fcache (fst (fdata_step b st Unchanged dt)) = c_fcache st
+  /\ c_dcache (fst (fdata_step b st Unchanged dt)) = c_dcache st.
+Proof.
+  unfold fdata_step. destruct (negb (is_float dt)); [split; reflexivity|].
+  destruct (match c_fcache st with
+            | Some k => if dtype_eqb (o_dt (get_obj (c_heap st) k)) dt then Some k else None
+            | None => None end); [split; reflexivity|].
+  destruct (if b && negb (is_arr (c_dobj st)) then inr EUnreadable else asanyarray st (Some dt)) as [[h r]|e];
+    split; reflexivity.
+Qed.
+
+(* uncache(): both caches empty; a proxy image is no longer in memory; "uncache() has no effect if ... the cache
+   is already empty" *)
+Lemma uncache_rule st :
+  c_fcache (fst (cstep st Uncache)) = None /\ c_dcache (fst (cstep st Uncache)) = None
+  /\ (forall p, c_dobj st = DProxy p -> snd (cstep (fst (cstep st Uncache)) InMemory) = OBool false)
+  /\ (c_fcache st = None -> c_dcache st = None -> fst (cstep st Uncache) = st).
+Proof.
+  cbn [cstep fst snd]. repeat split.
+  - intros p E. cbn. rewrite E. reflexivity.
+  - intros E1 E2. destruct st; cbn in *; subst; reflexivity.
+Qed.
+
+(* get_fdata docstring: for an array image "modifying the returned array will modify the result of future
+   calls": when the image's own array already has the requested float dtype, EVERY get_fdata of that dtype, in
+   any history and with either caching mode, returns that very array *)
+Definition own_inv (o : nat) (dt : dtype) (st : cstate) : Prop :=
+  wf st /\ c_dobj st = DArr o /\ o_dt (get_obj (c_heap st) o) = dt
+  /\ (forall k, c_fcache st = Some k -> o_dt (get_obj (c_heap st) k) = dt -> k = o).
+
+Lemma own_inv_heap o dt st h r :
+  own_inv o dt st -> grows (c_heap st) h -> valid h r -> own_inv o dt (with_heap_last st h r).
+Proof.
+  intros (W & Ed & Et & Ec) G V. pose proof W as (Wf & _ & _ & Wo).
+  split; [now apply wf_with_heap_last|]. split; [exact Ed|].
+  unfold with_heap_last; cbn. split.
+  - rewrite (grows_get _ _ o G (Wo o Ed)). exact Et.
+  - intros k Hk Hd. rewrite (grows_get _ _ k G (Wf k Hk)) in Hd. now apply Ec.
+Qed.
+
+Lemma own_inv_step o dt st op0 : is_float dt = true -> own_inv o dt st ->
+  own_inv o dt (fst (cstep st op0))
+  /\ (forall c b, (op0 = GetFdata c dt \/ (b = true /\ op0 = FdataBroken c dt)) -> snd (cstep st op0) = OArr o).
+Proof.
+  intros Hfl Inv. pose proof Inv as (W & Ed & Et & Ec). pose proof W as (Wf & Wd & Wl & Wo).
+  assert (FD : forall b c d,
+             own_inv o dt (fst (fdata_step b st c d)) /\ (d = dt -> snd (fdata_step b st c d) = OArr o)).
+  { intros b c d. unfold fdata_step. rewrite Ed. cbn [is_arr negb]. rewrite andb_false_r.
+    destruct (negb (is_float d)) eqn:Hf; [split; [exact Inv|intros ->; rewrite Hfl in Hf; discriminate]|].
+    destruct (c_fcache st) as [k|] eqn:Ek.
+    - destruct (dtype_eqb (o_dt (get_obj (c_heap st) k)) d) eqn:Edk.
+      + cbn [fst snd]. split; [apply own_inv_heap; auto using grows_refl|].
+        intros ->. apply dtype_eqb_eq in Edk. now rewrite (Ec k eq_refl Edk).
+      + destruct (asanyarray st (Some d)) as [[h r]|e] eqn:Ea; [|split; [exact Inv|]].
+        * destruct (asanyarray_ok _ _ _ _ W Ea) as [G V]. pose proof (asanyarray_dtype _ _ _ _ Ea) as Dt.
+          assert (Hr : d = dt -> r = o /\ h = c_heap st).
+          { intros ->. unfold asanyarray in Ea. rewrite Ed, Et, dtype_eqb_refl in Ea. inversion Ea; auto. }
+          split.
+          -- destruct c.
+             ++ destruct (own_inv_heap o dt st h r Inv G V) as (W1 & Ed1 & Et1 & _).
+                split; [|split; [exact Ed1|split; [exact Et1|]]].
+                ** unfold wf, with_fcache, with_heap_last in *; cbn in *. destruct W1 as (A & B0 & C & D).
+                   repeat split; auto; intros k' E'; inversion E'; subst; exact V.
+                ** unfold with_fcache, with_heap_last; cbn. intros k' E' Hd. inversion E'; subst k'.
+                   rewrite Dt in Hd. now destruct (Hr Hd).
+             ++ now apply own_inv_heap.
+          -- cbn [snd]. intros Hd. destruct c; cbn [snd]; f_equal; now destruct (Hr Hd).
+        * intros ->. unfold asanyarray in Ea. rewrite Ed, Et, dtype_eqb_refl in Ea. discriminate.
+    - destruct (asanyarray st (Some d)) as [[h r]|e] eqn:Ea; [|split; [exact Inv|]].
+      + destruct (asanyarray_ok _ _ _ _ W Ea) as [G V]. pose proof (asanyarray_dtype _ _ _ _ Ea) as Dt.
+        assert (Hr : d = dt -> r = o /\ h = c_heap st).
+        { intros ->. unfold asanyarray in Ea. rewrite Ed, Et, dtype_eqb_refl in Ea. inversion Ea; auto. }
+        split.
+        * destruct c.
+          -- destruct (own_inv_heap o dt st h r Inv G V) as (W1 & Ed1 & Et1 & _).
+             split; [|split; [exact Ed1|split; [exact Et1|]]].
+             ++ unfold wf, with_fcache, with_heap_last in *; cbn in *. destruct W1 as (A & B0 & C & D).
+                repeat split; auto; intros k' E'; inversion E'; subst; exact V.
+             ++ unfold with_fcache, with_heap_last; cbn. intros k' E' Hd. inversion E'; subst k'.
+                rewrite Dt in Hd. now destruct (Hr Hd).
+          -- now apply own_inv_heap.
+        * intros Hd. destruct c; cbn [snd]; f_equal; now destruct (Hr Hd).
+      + intros ->. unfold asanyarray in Ea. rewrite Ed, Et, dtype_eqb_refl in Ea. discriminate. }
+  assert (KEEP : forall st', wf st' -> c_dobj st' = DArr o -> c_heap st' = c_heap st -> c_fcache st' = c_fcache st ->
+                             own_inv o dt st').
+  { intros st' W' E1 E2 E3. split; [exact W'|]. split; [exact E1|]. rewrite E2, E3. split; assumption. }
+  destruct (step_refines st op0 W) as [_ W'].
+  split.
+  - destruct op0; cbn [cstep] in *; try (apply FD); try (apply KEEP; [exact W'|exact Ed|reflexivity|reflexivity]).
+    + (* AsArray *) destruct (asanyarray st None) as [[h r]|e] eqn:Ea; [|exact Inv].
+      destruct (asanyarray_ok _ _ _ _ W Ea). now apply own_inv_heap.
+    + (* Slice *) destruct (getitem st sl) as [[h r]|e] eqn:Ea; [|exact Inv].
+      destruct (getitem_ok _ _ _ _ W Ea). now apply own_inv_heap.
+    + (* Uncache *) split; [exact W'|]. split; [exact Ed|]. split; [exact Et|]. cbn. intros k E; discriminate.
+    + (* EditLast *)
+      destruct (c_last st) as [k|]; [|exact Inv]. destruct (o_wr (get_obj (c_heap st) k)); [|exact Inv].
+      split; [exact W'|]. split; [exact Ed|]. split; [exact Et|]. exact Ec.
+    + (* GetData *)
+      destruct (c_expired st); [exact Inv|]. destruct (c_dcache st) as [k|] eqn:Ek.
+      * apply own_inv_heap; auto using grows_refl.
+      * destruct (asanyarray st None) as [[h r]|e] eqn:Ea; [|exact Inv].
+        destruct (asanyarray_ok _ _ _ _ W Ea) as [G V].
+        destruct c; [|now apply own_inv_heap].
+        destruct (own_inv_heap o dt st h r Inv G V) as (W1 & Ed1 & Et1 & Ec1).
+        split; [exact W'|]. split; [exact Ed1|]. split; [exact Et1|exact Ec1].
+    + (* ReadSpec *) rewrite Ed. exact Inv.
+  - intros c b [->|[_ ->]]; cbn [cstep]; now apply FD.
+Qed.
+
+Lemma array_fdata_is_own o dt : is_float dt = true -> forall ops st, own_inv o dt st ->
+  forall i c, (nth_error ops i = Some (GetFdata c dt) \/ nth_error ops i = Some (FdataBroken c dt)) ->
+  nth_error (snd (crun st ops)) i = Some (OArr o).
+Proof.
+  intros Hfl. induction ops as [|op0 r IH]; intros st Inv i c Hn; [destruct i; destruct Hn; discriminate|].
+  destruct (own_inv_step o dt st op0 Hfl Inv) as [Inv' Hout].
+  rewrite crun_cons. cbn [snd]. destruct i as [|i]; cbn [nth_error] in *.
+  - f_equal. destruct Hn as [Hn|Hn]; inversion Hn; subst; apply (Hout c true); auto.
+  - eapply IH; eauto.
+Qed.
+
+Lemma own_inv_init vals sh dt h0 ex : own_inv 0%nat dt (init_array vals sh dt h0 ex).
+Proof.
+  split; [apply wf_init_array|]. split; [reflexivity|]. split; [reflexivity|]. intros k E; discriminate.
+Qed.
